@@ -115,8 +115,8 @@ theorem C48_accept_first_finish_last (n : Nat) (ρ : Nat → ChainRes) :
 
 /-- a panicking filter (model; the real code is driven on the same rows): the connection is closed, the panicking
     request gets no reply unless the panic is at HandleRequestFinish (reply already sent), later pipelined requests are
-    not served, HandleFinish still runs — except that a panic INSIDE HandleFinish leaves the connection open (`closed =
-    false`; finding `conn-left-open-after-panic-in-finish`). -/
+    not served, HandleFinish still runs; a panic INSIDE HandleFinish closes the connection too (since fix 95335f7;
+    before it `c.close()` was skipped, class `conn-left-open-after-panic-in-finish`). -/
 theorem C48_panic_rows :
     (∀ pt ∈ [pAccept, pBeforeLocation, pFoundProduct, pAfterLocation, pForward, pReadResponse],
       let o := serveConn 3 (fun q => if q == pt then [.boom] else if q == pFinish then [.f 1 false] else []);
@@ -124,7 +124,7 @@ theorem C48_panic_rows :
     (let o := serveConn 3 (fun q => if q == pRequestFinish then [.boom] else []);
       o.outs = [.backend] ∧ o.closed = true ∧ o.served = 1) ∧
     (let o := serveConn 3 (fun q => if q == pFinish then [.boom] else []);
-      o.outs = [.backend, .backend, .backend] ∧ o.closed = false) := by decide
+      o.outs = [.backend, .backend, .backend] ∧ o.closed = true) := by decide
 
 /-- HandleHandshake (TLS connections; not driven by the harness) reacts to every verdict exactly like HandleAccept -/
 theorem C48_handshake_like_accept : ∀ v ∈ allVerdicts, armFor pHandshake v = armFor pAccept v := by decide
